@@ -19,13 +19,14 @@ type FuncResult struct {
 	Havocked []string
 	Notes    []string
 	Gen      *Gen
+	Called   []*ssa.Function
 }
 
 // verifyFunc generates the obligations of one function for one behaviour label ("" = safety).
 func (w *World) verifyFunc(pkg *PkgInfo, fn *ssa.Function, fc *FuncContract, label string) (res *FuncResult) {
 	x := &Exec{w: w, g: newGen(w), pkg: pkg, fn: fn, fc: fc, label: label, sites: map[ssa.Instruction]string{},
 		localM: map[*ssa.Alloc]bool{}, maxNodes: 20000, used: map[string]bool{}, inlined: map[string]bool{},
-		havocked: map[string]bool{}, inputs: map[string]string{}, inputTypes: map[string]types.Type{}, plans: map[*ssa.Function]*lazyPlan{}}
+		havocked: map[string]bool{}, called: map[*ssa.Function]bool{}, inputs: map[string]string{}, inputTypes: map[string]types.Type{}, plans: map[*ssa.Function]*lazyPlan{}}
 	res = &FuncResult{Func: fn.RelString(fn.Pkg.Pkg), Label: label, Gen: x.g}
 	defer func() {
 		res.Obls = x.obls
@@ -33,6 +34,9 @@ func (w *World) verifyFunc(pkg *PkgInfo, fn *ssa.Function, fc *FuncContract, lab
 		res.Inlined = keys(x.inlined)
 		res.Havocked = keys(x.havocked)
 		res.Notes = x.notes
+		for f := range x.called {
+			res.Called = append(res.Called, f)
+		}
 		if r := recover(); r != nil {
 			switch e := r.(type) {
 			case unsupported:
